@@ -72,6 +72,11 @@ class CallMixin:
             self.raise_new('AttributeError', smt.mk_str(f"'{k}' object has no attribute '{name}'"),
                            origin=f'attribute {name} of {k}')
         c = self.require_class(obj, f'receiver of .{name}')
+        if not c.builtin and c.lookup(name) is None and name not in self.declared_attrs(c):
+            for alt in self.hint_alt.get(smt.simp(obj).get_id(), []):
+                if alt.lookup(name) is not None or name in self.declared_attrs(alt):
+                    c = alt
+                    break
         return self.instance_get_attr(obj, c, name, node)
 
     def instance_get_attr(self, obj, c: ClassInfo, name: str, node=None):
